@@ -3,6 +3,7 @@
 gen_budget() draws a model; render_budget() turns it into {relpath: text}.  The model is the
 only thing the oracles trust about the world (C11 wiring, C15/C20 frame conditions).
 """
+import random
 from . import statement as st
 from . import rulesfile as rf
 
@@ -183,6 +184,17 @@ def gen_budget(rng, profile='migrate', year=2025):
                                   'merchant': '', 'tags': [], 'priority': None, 'lets': [], 'fields': []})
             m['rules'].append({'name': w.title() + ' Specific', 'match': 'contains("%s") and amount > 1' % w, 'category': 'Specific',
                                'subcategory': 'Narrow', 'merchant': '', 'tags': [], 'priority': None, 'lets': [], 'fields': []})
+        if profile == 'full' and len(srcs) >= 2:
+            # one rules file for several accounts: a rule pinned to the account that is read last (what an earlier account's
+            # trouble leaves behind in the process shows on that account's rows).  Drawn from the content, not from `rng`.
+            import zlib
+            r2 = random.Random(zlib.crc32(repr(used).encode()))
+            last = [s for s in b['sources'] if not s['supplemental']][-1]
+            if last['rows'] and r2.random() < 0.6:
+                w = r2.choice(last['rows'])['desc'].split()[0].split('.')[0]
+                m['rules'].insert(0, {'name': w.title() + ' On ' + last['name'], 'match': 'contains("%s") and source == "%s"' % (w, last['name']),
+                                      'category': 'Account', 'subcategory': 'Pinned', 'merchant': '', 'tags': [], 'priority': None,
+                                      'lets': [], 'fields': []})
         if profile == 'full' and rng.random() < 0.5:
             # transforms that matter: some descriptions carry a processor prefix that only the transform removes
             m['transforms'] = [['field.description', 'regex_replace(field.description, "^APLPAY\\\\s+", "")'],
